@@ -24,6 +24,7 @@ def op(name, **kw):
     return d
 
 
+AA, BW, BR, RES = 'AddAll', 'BatchWait', 'BatchRead', 'Result'
 A, C, W, P, PW, R, S, RS, T, WS, PU, QC, WU, CC = 'Add', 'Close', 'Wait', 'Pause', 'PauseAndWait', 'Resume', 'Stop', 'Restart', 'TunePool', 'WaitAndStop', 'Purge', 'QClose', 'WUF', 'CancelCtx'
 
 # name -> (clients{name: [ops]}, constants overrides, tier)
@@ -47,14 +48,22 @@ CONFIGS = {
     'ctx': ({'c1': [op(A, job=1)], 'ctl': [op(RS)], 'x': [op(CC)]}, {'WithCtx': True, 'Jobs': [1]}, 'thorough'),
     'ctx0': ({'ctl': [op(RS)], 'x': [op(CC)]}, {'WithCtx': True, 'Jobs': [1]}, 'quick'),
     'tuneratio': ({'c1': [op(A, job=1), op(WU)], 'ctl': [op(T, n=2), op(T, n=1), op(T, n=3)]}, {'Jobs': [1], 'Nodes': [1, 2, 3], 'PGSeq': ['pg1', 'pg2', 'pg3'], 'Conc0': 3, 'Ratio': 100}, 'quick'),
+    'batch': ({'c1': [op(AA, n=1), op(BR, n=1)], 'w1': [op(BW, n=1)]}, {'Conc0': 2, 'WK': 'result', 'BatchOf': {1: 1, 2: 1}}, 'quick'),
+    'batch0': ({'c1': [op(AA, n=1), op(BR, n=1), op(A, job=1), op(RES, job=1)]}, {'WK': 'err', 'BatchOf': {1: 0}, 'Jobs': [1], 'Outcome': {1: 'err'}}, 'quick'),
+    'batchpurge': ({'c1': [op(AA, n=1), op(BW, n=1)], 'x': [op(PU)], 'y': [op(QC)]}, {'Conc0': 1, 'WK': 'err', 'BatchOf': {1: 1, 2: 1}, 'Outcome': {1: 'err', 2: 'ok'}}, 'thorough'),
+    'result': ({'c1': [op(A, job=1), op(A, job=2), op(RES, job=1)], 'w1': [op(RES, job=1), op(RES, job=2)], 'x': [op(C, job=2)]}, {'WK': 'result', 'Outcome': {1: 'err', 2: 'ok'}}, 'quick'),
+    'adapter': ({'c1': [op(A, job=1), op(A, job=2), op(WU)]}, {'QKind': 'pfifo', 'Conc0': 1}, 'quick'),
+    'adapterfault': ({'c1': [op(A, job=1), op(A, job=2), op(WU)]}, {'QKind': 'pprio', 'Conc0': 2, 'Faults': [('enq', 1), ('deq', 0), ('ack', 1)]}, 'quick'),
+    'crash': ({'c1': [op(A, job=1), op(A, job=2)]}, {'QKind': 'pfifo', 'Conc0': 1, 'MaxCrash': 1}, 'quick'),
+    'crash2': ({'c1': [op(A, job=1), op(A, job=2)], 'ctl': [op(PW), op(R)]}, {'QKind': 'pfifo', 'Conc0': 2, 'MaxCrash': 1}, 'thorough'),
     'ratio': ({'c1': [op(A, job=1), op(A, job=2), op(A, job=3), op(WU)]}, {'Jobs': [1, 2, 3], 'Nodes': [1, 2, 3], 'PGSeq': ['pg1', 'pg2', 'pg3'], 'Conc0': 3, 'Ratio': 100}, 'thorough'),
 }
 
 DEFAULTS = {'Jobs': [1, 2], 'QKind': 'fifo', 'Nodes': [1, 2], 'DispSeq': ['disp1', 'disp2'], 'PGSeq': ['pg1', 'pg2'],
-            'Conc0': 1, 'Ratio': 0, 'Expiry': False, 'WithCtx': False, 'MaxGen': 1}
+            'Conc0': 1, 'Ratio': 0, 'Expiry': False, 'WithCtx': False, 'MaxGen': 1, 'WK': 'plain', 'Faults': [], 'MaxCrash': 0}
 
 SAFETY = ['TypeOK', 'NoViolation', 'C01_AtMostOnce', 'C01_NoRejected', 'C02_Bound', 'C09_PauseBound', 'C17_Bounds', 'C18_PoolBound', 'C18_IdleAtRest',
-          'NodeOwnership', 'OneLoop', 'C03_NoStall', 'C06_Returns', 'C05_Returns']
+          'NodeOwnership', 'OneLoop', 'C08_CloseOnce', 'C08_Closes', 'C07_Metrics', 'C11_AckAfter', 'C11_AckIssued', 'C11_NoLoss', 'C11_Recovery', 'C03_NoStall', 'C06_Returns', 'C05_Returns']
 
 
 def write_model(name, scratch, live=False, extra_invs=()):
@@ -63,6 +72,8 @@ def write_model(name, scratch, live=False, extra_invs=()):
     k.update(over)
     jobs = k['Jobs']
     prio = k.get('Prio') or {j: 0 for j in jobs}
+    outc = k.get('Outcome') or {}
+    bof = k.get('BatchOf') or {}
     mod = 'MCg_' + name
     progs = ' @@ '.join('("%s" :> %s)' % (c, tla_val(ops)) for c, ops in clients.items())
     txt = '''---- MODULE %s ----
@@ -71,8 +82,12 @@ ProgG == %s
 PrioG == %s
 DispG == %s
 PGG == %s
+OutG == %s
+BatchG == %s
+FaultsG == {%s}
 ====
-''' % (mod, progs, ' @@ '.join('(%d :> %d)' % (j, prio[j]) for j in jobs), tla_val(k['DispSeq']), tla_val(k['PGSeq']))
+''' % (mod, progs, ' @@ '.join('(%d :> %d)' % (j, prio[j]) for j in jobs), tla_val(k['DispSeq']), tla_val(k['PGSeq']),
+       ' @@ '.join('(%d :> "%s")' % (j, outc.get(j, 'ok')) for j in jobs), ' @@ '.join('(%d :> %d)' % (j, bof.get(j, 0)) for j in jobs), ', '.join('<<"%s", %d>>' % (a, b) for a, b in k['Faults']))
     cfg = '''SPECIFICATION %s
 CONSTANTS
  Clients = {%s}
@@ -88,9 +103,14 @@ CONSTANTS
  Expiry = %s
  WithCtx = %s
  MaxGen = %d
+ WK = "%s"
+ Outcome <- OutG
+ BatchOf <- BatchG
+ Faults <- FaultsG
+ MaxCrash = %d
 CHECK_DEADLOCK FALSE
 ''' % ('FairSpec' if live else 'Spec', ', '.join('"%s"' % c for c in clients), ', '.join(map(str, jobs)), k['QKind'],
-       ', '.join(map(str, k['Nodes'])), k['Conc0'], k['Ratio'], tla_val(k['Expiry']), tla_val(k['WithCtx']), k['MaxGen'])
+       ', '.join(map(str, k['Nodes'])), k['Conc0'], k['Ratio'], tla_val(k['Expiry']), tla_val(k['WithCtx']), k['MaxGen'], k['WK'], k['MaxCrash'])
     if live:
         cfg += 'PROPERTY C03_Live\n'
     else:
